@@ -186,8 +186,13 @@ def fixups(db, ctx):
         if n.get("k") != "If":
             continue
         c = peel(n["cond"])
-        if not (c.get("k") == "MethodCall" and c.get("method") == "contains"):
-            continue
+        if not (c.get("k") == "MethodCall" and c.get("method") in ("contains", "intersects")):
+            # a conjunction such as `dict_id > 0 && subset.contains(..)`: look inside
+            inner = [a for a, pol in atoms(n["cond"], True) if peel(a).get("k") == "MethodCall" and peel(a).get("method") in ("contains", "intersects")
+                     and "subset" in render(peel(a)["recv"])]
+            if not inner:
+                continue
+            c = peel(inner[0])
         flag = flag_names(c["args"][0])
         touched = set()
         for x, _ in walk(n["then"]):
@@ -195,8 +200,11 @@ def fixups(db, ctx):
                 touched.add(x["name"])
         want = {field_flag[t] for t in touched}
         n_fix += 1
-        ctx.ob("fixup|%s" % ",".join(sorted(touched)), bool(touched) and flag == want,
-               "fix-up of %s is guarded by contains(%s); the parser pairs those fields with %s" % (sorted(touched), sorted(flag), sorted(want)),
+        # requesting a field must be enough to get its fix-up: contains(F) demands ALL of F, so F must be exactly that field's flag
+        implied = all(flag == {field_flag[t]} for t in touched) if c.get("method") == "contains" else all(field_flag[t] in flag for t in touched)
+        ctx.ob("fixup|%s" % ",".join(sorted(touched)), bool(touched) and flag == want and implied,
+               "fix-up of %s is guarded by %s(%s); the parser pairs those fields with %s; each field's own flag alone enables its fix-up: %s" % (
+                   sorted(touched), c.get("method"), sorted(flag), sorted(want), implied),
                fn=f, site=n.get("sp"))
     ctx.floor(4)
     g = db.one("get_word_info", "WordInfos")
